@@ -330,11 +330,13 @@ def run(tier, seed):
     run.rule = ("loads of one definition multiset in different orders/splits through the real loader: entry-level "
                 "permutations of the parsed bundled file (identity, reversal, dependency-reversed, rotations, seeded "
                 "shuffles), text-level pieces cut at !endcategory lines parsed as 1..3 separate files, and generated "
-                "databases (chains, fans, diamonds, prefix/quantity/substance cross references) shuffled and split; "
+                "databases (chains, fans, diamonds, prefix/quantity/substance cross references, ambiguous prefix splits, long-name "
+                "references, doc comments on 30% of the blocks) shuffled and split at text level; a valid generated database must load; "
                 "non-trivial = distinct (permutation class, split) whose dump was compared byte for byte")
     run.assumptions = ["entries sharing a (namespace, name) keep their relative order: duplicates are last-wins by design "
                        "(the bundled file declares some category ids twice)",
-                       "the unit of permutation is a parsed definition (docs and category travel with it)"]
+                       "for the bundled file the unit of permutation is a parsed definition (docs and category travel with it); generated "
+                       "databases are permuted as text blocks, so the parser runs on every order"]
     probe = worker_probe()
     r = probe.request({"op": "defs", "source": "bundled"}, timeout=120)
     if "defs" not in r:
